@@ -105,15 +105,21 @@ async fn run_script(steps: Vec<String>) -> (String, Option<String>) {
     let mut partial_sent = false;
     let mut kinds: Vec<String> = vec![];
     let mut sent_at_start: Vec<usize> = vec![];
+    // P:<kind>:<tmo> starts an operation which stops between taking its message id and sending the request to the driver (a caller thread
+    // preempted there, while other handles go on); E:<op> lets it continue. gates[op] is the release handle while the operation is held.
+    let mut gates: Vec<Option<tokio::sync::oneshot::Sender<()>>> = vec![];
+    ldap3::Ldap::verif_clear_alloc_gates();
     for tok in &steps {
         // G:<kind>,<kind>,...  starts several operations back to back, before the driver gets to run: one settle for the group
         let subs: Vec<String> = if tok.starts_with("G:") { tok[2..].split(',').map(|k| format!("S:{}:-", k)).collect() } else { vec![tok.clone()] };
         for tok in &subs {
         let f: Vec<&str> = tok.split(':').collect();
         match f[0] {
-            "S" if main.is_none() => {}
-            "S" => {
-                let view = Arc::new(Mutex::new(View { status: "pending".into(), lastres: "-".into(), ..Default::default() }));
+            "S" | "P" if main.is_none() => {}
+            "S" | "P" => {
+                let held = f[0] == "P";
+                gates.push(if held { Some(ldap3::Ldap::verif_hold_next_alloc()) } else { None });
+                let view = Arc::new(Mutex::new(View { status: if held { "alloc".into() } else { "pending".into() }, lastres: "-".into(), ..Default::default() }));
                 views.push(view.clone());
                 // "max": Duration::MAX, the usual "practically unlimited" idiom (the deadline arithmetic must not overflow)
                 let tmo: Option<Duration> = if f[2] == "-" { None } else if f[2] == "max" { Some(Duration::MAX) } else { Some(Duration::from_millis(f[2].parse().unwrap())) };
@@ -220,6 +226,10 @@ async fn run_script(steps: Vec<String>) -> (String, Option<String>) {
                 _ => {}
             } },
             "H" => { main = None; }
+            "E" => { let o: usize = f[1].parse().unwrap(); if let Some(g) = gates.get_mut(o).and_then(|g| g.take()) { { let mut v = views[o].lock().unwrap(); if v.status == "alloc" { v.status = "pending".into(); } }
+                // what was sent under its id while the request had not even left counts as unsolicited, not as its answer
+                sent_at_start[o] = sent_by_id.get(&op_mid[o]).map(|x| x.len()).unwrap_or(0);
+                let _ = g.send(()); } }
             // T:<last>:<ids>  positions the id table; ids "~" = empty, "=" = keep the ids in use now (a faithful picture of the counter having come round)
             "T" => { if let Some(h) = &main { let ids: Vec<i32> = if f[2] == "~" { vec![] } else if f[2] == "=" { table.lock().unwrap().1.iter().copied().collect() } else { f[2].split(',').map(|x| x.parse().unwrap()).collect() }; h.verif_set_id_table(f[1].parse().unwrap(), &ids); table_reset = true; } }
             _ => {}
@@ -299,9 +309,13 @@ fn gen_script(rng: &mut Rng, len: usize, flavour: u64) -> String {
     let mut g = GenState { kinds: vec![], tmos: vec![], toks: 0, finished_streams: vec![] };
     let mut s: Vec<String> = vec![];
     let mut ended = false; let mut flooded = false;
+    // operations held between id allocation and the send (P ... E): other handles overtake them
+    let mut held: Vec<usize> = vec![];
     for _ in 0..len {
         let roll = rng.below(100);
-        if roll < 3 && flavour != 1 {
+        if !held.is_empty() && rng.chance(1, 4) {
+            let i = rng.below(held.len() as u64) as usize; s.push(format!("E:{}", held.remove(i)));
+        } else if roll < 3 && flavour != 1 {
             // a group of 2-4 operations started in one go; an Unbind may sit in the middle
             let k = 2 + rng.below(3); let mut ks = vec![];
             for j in 0..k { let kind = if j > 0 && flavour == 3 && rng.chance(1, 3) { "unbind".to_string() } else { rng.pick(&["single", "single", "sd", "sa"]).to_string() }; ks.push(kind.clone()); g.kinds.push(kind); g.tmos.push(None); g.finished_streams.push(false); }
@@ -309,7 +323,9 @@ fn gen_script(rng: &mut Rng, len: usize, flavour: u64) -> String {
         } else if g.kinds.is_empty() || roll < 28 {
             let kind = match rng.below(10) { 0 | 1 | 2 | 3 => "single".to_string(), 4 | 5 => "sd".into(), 6 | 7 => "sa".into(), 8 => format!("ab{}", if g.kinds.is_empty() { 5 } else { 1 + rng.below(g.kinds.len() as u64 + 1) }), _ => if flavour == 3 && rng.chance(1, 3) { "unbind".into() } else { "single".into() } };
             let tmo = if flavour == 2 || rng.chance(1, 5) { Some(*rng.pick(&[0u64, 1, 1000, 5000, u64::MAX])) } else { None };
-            s.push(format!("S:{}:{}", kind, tmo.map(|t| if t == u64::MAX { "max".to_string() } else { t.to_string() }).unwrap_or("-".into())));
+            let hold = rng.chance(1, 5);
+            if hold { held.push(g.kinds.len()); }
+            s.push(format!("{}:{}:{}", if hold { "P" } else { "S" }, kind, tmo.map(|t| if t == u64::MAX { "max".to_string() } else { t.to_string() }).unwrap_or("-".into())));
             g.kinds.push(kind); g.tmos.push(tmo); g.finished_streams.push(false);
         } else if roll < 31 && flavour == 0 && !flooded && g.kinds.iter().any(|k| k == "sd" || k == "sa") {
             // at most one flood per script, on a search that exists
@@ -343,6 +359,7 @@ fn gen_script(rng: &mut Rng, len: usize, flavour: u64) -> String {
         } else if flavour == 3 && rng.chance(1, 2) { s.push("H".into()); } else { s.push("A:1".into()); }
     }
     if flavour == 1 {
+        for o in held.drain(..) { s.push(format!("E:{}", o)); }
         // drive to quiescence: answer every single op, finish every stream
         for (i, k) in g.kinds.clone().iter().enumerate() {
             g.toks += 1;
